@@ -83,3 +83,103 @@ Proof.
               (fun l => eq_refl) l _ l' R) as [n0 H].
   exists n0. intros n L. destruct (H n L I) as [H1 _]. exact H1.
 Qed.
+
+(* ------------------------------------------------------------------------------------ *)
+(* size hints through composition.  The outer combinator reads the inner machine's size_hint
+   at the state reached after as many polls as the behaviour script has lost answers. *)
+Definition uh_of {A} (mi : machine A) (s : St mi) (H : nat) : script A -> hintT :=
+  fun l => hint mi (state_after mi (H - length l) s).
+
+(* [guard uh] is [uh] wherever uh is truthful, (0, None) elsewhere: truthful everywhere, so every
+   per-combinator spec applies to it; and it IS the inner hint on the scripts that occur *)
+Definition guard {A} (uh : script A -> hintT) : script A -> hintT :=
+  fun l => if (fst (uh l) <=? rem l) && match snd (uh l) with Some u => rem l <=? u | None => true end
+           then uh l else (0, None).
+
+Lemma guard_truthful {A} (uh : script A -> hintT) : truthful (guard uh).
+Proof.
+  intros l. unfold guard.
+  destruct ((fst (uh l) <=? rem l) && match snd (uh l) with Some u => rem l <=? u | None => true end) eqn:E.
+  - apply andb_prop in E. destruct E as [E1 E2]. apply N.leb_le in E1. split; auto.
+    destruct (snd (uh l)); auto. apply N.leb_le. exact E2.
+  - split; simpl; [lia|exact I].
+Qed.
+
+Lemma guard_id {A} (uh : script A -> hintT) l : hint_ok (uh l) (rem l) -> guard uh l = uh l.
+Proof.
+  intros [L U]. unfold guard. apply N.leb_le in L. rewrite L. simpl.
+  destruct (snd (uh l)); auto. apply N.leb_le in U. rewrite U. reflexivity.
+Qed.
+
+Lemma beh_length {B} (m : machine B) : forall n s, length (beh m n s) = n.
+Proof.
+  unfold beh. induction n as [|n IH]; intros s; simpl; auto.
+  destruct (pull1 m s) as [o s1]. simpl. f_equal. apply IH.
+Qed.
+
+Lemma state_after_add {B} (m : machine B) : forall j k s,
+  state_after m (k + j) s = state_after m j (state_after m k s).
+Proof. intros j. induction k as [|k IH]; intros s; simpl; auto. Qed.
+
+(* the behaviour script from a later state is a suffix, and hints re-base accordingly *)
+Lemma beh_suffix {B} (m : machine B) : forall k n s,
+  skipn k (beh m (k + n) s) = beh m n (state_after m k s).
+Proof.
+  unfold beh. induction k as [|k IH]; intros n s; simpl; auto.
+  destruct (pull1 m s) as [o s1] eqn:E. simpl. rewrite IH. reflexivity.
+Qed.
+
+Lemma uh_of_rebase {A} (mi : machine A) s k n l : (length l <= n)%nat ->
+  uh_of mi s (k + n) l = uh_of mi (state_after mi k s) n l.
+Proof.
+  intros L. unfold uh_of. replace (k + n - length l)%nat with (k + (n - length l))%nat by lia.
+  rewrite state_after_add. reflexivity.
+Qed.
+
+Section ComposeHints.
+  Variables A B : Type.
+  Variable inner : machine A.
+  Variables (prei fini : St inner -> Prop) (refi : St inner -> list A).
+  Hypothesis SI : C11_spec inner prei fini refi.
+
+  (* on the behaviour script itself the guard is transparent: the outer combinator sees the
+     inner machine's real size_hint *)
+  Lemma guard_exact_head s : prei s ->
+    exists n0, forall H, (n0 <= H)%nat ->
+      guard (uh_of inner s H) (beh inner H s) = hint inner s /\ items (beh inner H s) = refi s.
+  Proof.
+    intros P. destruct SI as [S1 [_ [_ S4]]]. destruct (S1 s P) as [s' R].
+    destruct (beh_items R) as [n0 Hn]. exists n0. intros H L. split; [|apply Hn; exact L].
+    assert (uh_of inner s H (beh inner H s) = hint inner s) as E.
+    { unfold uh_of. rewrite beh_length. replace (H - H)%nat with O by lia. reflexivity. }
+    rewrite guard_id; rewrite E; auto.
+    unfold rem. rewrite (Hn H L). apply S4. exact P.
+  Qed.
+
+  (* C11 composes WITH size hints: [outer uh] is any combinator family whose spec holds for every
+     truthful upstream hint (all sixteen are); over the inner machine it yields
+     refo (refi s), and its size_hint -- computed from the inner machine's real size_hint --
+     brackets that many items.  Every later state of the pipeline is again of this form
+     (beh_suffix, uh_of_rebase), so the statement covers the whole run. *)
+  Theorem C11_compose_hints
+          (outer : (script A -> hintT) -> machine B)
+          (embed : forall uh, script A -> St (outer uh))
+          (pre fin : forall uh, St (outer uh) -> Prop) (ref : forall uh, St (outer uh) -> list B)
+          (refo : list A -> list B) :
+    (forall uh, truthful uh -> C11_spec (outer uh) (pre uh) (fin uh) (ref uh)) ->
+    (forall uh l, ref uh (embed uh l) = refo (items l)) ->
+    forall s, prei s ->
+    exists n0, forall H, (n0 <= H)%nat ->
+      let uh := guard (uh_of inner s H) in
+      let st := embed uh (beh inner H s) in
+      pre uh st ->
+      uh (beh inner H s) = hint inner s /\
+      (exists st', runs_to (outer uh) st (refo (refi s)) st') /\
+      hint_ok (hint (outer uh) st) (len (refo (refi s))).
+  Proof.
+    intros SO Href s P. destruct (guard_exact_head P) as [n0 Hn]. exists n0.
+    intros H L uh st Pst. destruct (Hn H L) as [E1 E2].
+    destruct (SO uh (@guard_truthful A (uh_of inner s H))) as [S1 [_ [_ S4]]]. split; [exact E1|].
+    unfold st in *. rewrite <- E2, <- (Href uh). split; [apply S1; exact Pst|apply S4; exact Pst].
+  Qed.
+End ComposeHints.
